@@ -16,7 +16,7 @@ EXPLANATION = (
     "read from the syntax tree, a table fact, or the rule of another property evaluated in the same run. A new unwrap/index/"
     "arithmetic/panic!, a removed guard or a new unsafe block therefore fails the check. Allocation failure, stack exhaustion, "
     "panicking caller-supplied impls and 32-bit usize arithmetic are outside the claim.")
-EXHAUSTIVE = True
+EXHAUSTIVE = False     # the abstract inputs are a stated finite scope, not the whole input space
 
 PAR = "rspirv::binary::parser"
 
